@@ -1246,11 +1246,13 @@ def semF (u : Unpaired F) : F := sqrt (add (s2n u.a) (s2n u.b))
     wide type, `dofW`; on a carrier with `F = W` and the identity `Widen` the two agree,
     `dofW_eq_dofF_RR`, `dofW_eq_dofF_XR`.) -/
 def dofF (u : Unpaired F) : F :=
-  effectiveDof (s2n u.a) (s2n u.b) (Scalar.ofNat u.a.count) (Scalar.ofNat u.b.count)
+  clampDof (effectiveDof (s2n u.a) (s2n u.b) (Scalar.ofNat u.a.count) (Scalar.ofNat u.b.count))
+    (Scalar.ofNat u.a.count) (Scalar.ofNat u.b.count)
 /-- the effective degrees of freedom `ci_mean` hands on: evaluated in the wide type `W` from the
     widened variance terms `s²/n` and the widened counts -/
 def dofW (u : Unpaired F) : W :=
-  effectiveDof (Widen.up (s2n u.a)) (Widen.up (s2n u.b))
+  clampDof (effectiveDof (Widen.up (s2n u.a)) (Widen.up (s2n u.b))
+      (Widen.up (Scalar.ofNat u.a.count : F)) (Widen.up (Scalar.ofNat u.b.count : F)))
     (Widen.up (Scalar.ofNat u.a.count : F)) (Widen.up (Scalar.ofNat u.b.count : F))
 
 /-- on rounded (and exact) reals the wide type is the data type: both evaluations agree -/
@@ -1510,6 +1512,33 @@ theorem effectiveDof_safe (α β : ℝ) (na nb : ℕ) (hα : 0 ≤ α) (hβ : 0 
     rw [div_fin_fin_of_ne _ hD]
     exact ⟨_, rfl, welch_dof_pos α β na nb hα hβ hna' hnb' hD⟩
 
+/-- the lower clamp `min(na, nb) - 1` keeps a NaN or `+∞` as it is and keeps a positive number positive:
+    with `na, nb ≥ 2` the clamped value is never `≤ 0` -/
+theorem clampDof_safe (d : XR) (na nb : ℕ) (hna : 2 ≤ na) (hnb : 2 ≤ nb)
+    (hd : d = nan ∨ d = pinf ∨ ∃ r : ℝ, d = fin r ∧ 0 < r) :
+    Unpaired.clampDof d (fin na) (fin nb) = nan ∨ Unpaired.clampDof d (fin na) (fin nb) = pinf ∨
+    ∃ r : ℝ, Unpaired.clampDof d (fin na) (fin nb) = fin r ∧ 0 < r := by
+  have hna' : (2 : ℝ) ≤ na := by exact_mod_cast hna
+  have hnb' : (2 : ℝ) ≤ nb := by exact_mod_cast hnb
+  have hmin : fmin (fin (na : ℝ)) (fin (nb : ℝ)) = fin (min (na : ℝ) nb) := by
+    unfold fmin
+    by_cases h : (nb : ℝ) < na
+    · simp [h, min_eq_right h.le]
+    · have h' : (na : ℝ) ≤ nb := not_lt.mp h
+      simp [h, h', min_eq_left h']
+  have hm : 0 < min (na : ℝ) nb - 1 := by
+    have : (2 : ℝ) ≤ min (na : ℝ) nb := le_min hna' hnb'
+    linarith
+  unfold Unpaired.clampDof
+  simp only [hmin, one_eq, sub_fin_fin]
+  rcases hd with rfl | rfl | ⟨r, rfl, hr⟩
+  · left; simp
+  · right; left; simp
+  · right; right
+    by_cases h : r < min (na : ℝ) nb - 1
+    · exact ⟨_, by simp [h], hm⟩
+    · exact ⟨_, by simp [h], hr⟩
+
 /-- on `XR` the guards of `Unpaired::ci_mean` leave `s²/n` finite and non-negative -/
 theorem s2n_of_finite (a : Arith XR) (h2 : 2 ≤ a.count) (h : Scalar.isFinite (Unpaired.s2n a) = true) :
     ∃ α : ℝ, Unpaired.s2n a = fin α ∧ 0 ≤ α := by
@@ -1537,10 +1566,13 @@ theorem unpaired_ciMean_isPanic (crit : Crit XR) (u : Unpaired XR) (conf : Confi
   obtain ⟨hA, hB⟩ := isFinite_add (isFinite_sqrt h4)
   obtain ⟨α, hα, hα0⟩ := s2n_of_finite u.a h1 hA
   obtain ⟨β, hβ, hβ0⟩ := s2n_of_finite u.b h2 hB
-  have hd : Unpaired.dofF u = Unpaired.effectiveDof (fin α) (fin β) (fin u.a.count) (fin u.b.count) := by
+  have hd : Unpaired.dofF u = Unpaired.clampDof
+      (Unpaired.effectiveDof (fin α) (fin β) (fin u.a.count) (fin u.b.count))
+      (fin u.a.count) (fin u.b.count) := by
     unfold Unpaired.dofF; rw [hα, hβ]; rfl
   rw [Unpaired.dofW_eq_dofF_XR, hd] at h5 h6
-  rcases effectiveDof_safe α β u.a.count u.b.count hα0 hβ0 h1 h2 with h | h | ⟨r, h, hr⟩ <;>
+  rcases clampDof_safe _ u.a.count u.b.count h1 h2
+      (effectiveDof_safe α β u.a.count u.b.count hα0 hβ0 h1 h2) with h | h | ⟨r, h, hr⟩ <;>
     rw [h] at h5 h6
   · simp at h5
   · simp [populationLimit] at h5
@@ -1607,12 +1639,14 @@ theorem Unpaired.dofF_pos_Rex (u : Unpaired Rex) (h1 : 2 ≤ u.a.count) (h2 : 2 
       · exact hp (mul_self_eq_zero.mp z)
       · linarith
   have := welch_dof_pos _ _ _ _ hα hβ hna hnb hD
-  have hval : (Unpaired.dofF u).val =
+  have hval : (Unpaired.effectiveDof (Unpaired.s2n u.a) (Unpaired.s2n u.b)
+        (Scalar.ofNat u.a.count) (Scalar.ofNat u.b.count) : Rex).val =
       ((Unpaired.s2n u.a).val + (Unpaired.s2n u.b).val) * ((Unpaired.s2n u.a).val + (Unpaired.s2n u.b).val) /
         ((Unpaired.s2n u.a).val * (Unpaired.s2n u.a).val / ((u.a.count : ℝ) + 1) +
           (Unpaired.s2n u.b).val * (Unpaired.s2n u.b).val / ((u.b.count : ℝ) + 1)) - 1 - 1 := by
-    simp [Unpaired.dofF, Unpaired.effectiveDof]
-  rw [hval]; exact this
+    simp [Unpaired.effectiveDof]
+  rw [Unpaired.dofF, Unpaired.clampDof_val, hval]
+  exact lt_of_lt_of_le this (le_max_left _ _)
 
 theorem Unpaired.ciMean_isPanic_Rex (crit : Crit Rex) (u : Unpaired Rex) (conf : Confidence Rex)
     (hq : probOk conf.quantile = true)
